@@ -727,7 +727,7 @@ def check_skeleton(ctx: Ctx, rule: str, fi: FuncInfo, specs: Sequence[str], what
 
     missing = [c for c in required_calls if f"call:{c}" not in voc and f"attr:{c}" not in voc and not reachable_from_term(c)]
     if missing:
-        ctx.violation(rule, fi, fi.node, f"{what}: the implementation never consults {', '.join(missing)}  (it computes {show(impl)[:160]})")
+        ctx.violation(rule, fi, fi.node, f"{what}: the implementation never consults {', '.join(missing)}  (it computes {show(impl)[:160]})", robust=True)
         return False
     spec_terms = [canon_sym(spec_from_src(s)) for s in specs]
     if ignore_asserts:
@@ -785,17 +785,17 @@ def check_skeleton(ctx: Ctx, rule: str, fi: FuncInfo, specs: Sequence[str], what
         for sp in spec_terms:
             d = point_diffs(c, sp)
             if d == 1:
-                ctx.violation(rule, fi, fi.node, f"{what}: implementation computes  {show(c)}  but the property requires  {show(sp)}")
+                ctx.violation(rule, fi, fi.node, f"{what}: implementation computes  {show(c)}  but the property requires  {show(sp)}", robust=True)
                 return False
             # (4) the same conditions combined into a different boolean function (negated, and/or exchanged, a case dropped)
             if same_atoms(c, sp) and prop_equivalent(c, sp, ctx.repo) is False:
                 w = getattr(prop_equivalent, "witness", {})
-                ctx.violation(rule, fi, fi.node, f"{what}: implementation computes  {show(c)}  but the property requires  {show(sp)}  (they differ when {w})")
+                ctx.violation(rule, fi, fi.node, f"{what}: implementation computes  {show(c)}  but the property requires  {show(sp)}  (they differ when {w})", robust=True)
                 return False
             # (5) restructured, and exactly one condition is a point change of the specified one
             off = one_atom_off(c, sp, ctx.repo)
             if off is not None:
-                ctx.violation(rule, fi, fi.node, f"{what}: the implementation tests  {show(off[0])[:200]}  where the property requires  {show(off[1])[:200]}  (every other condition agrees)")
+                ctx.violation(rule, fi, fi.node, f"{what}: the implementation tests  {show(off[0])[:200]}  where the property requires  {show(off[1])[:200]}  (every other condition agrees)", robust=True)
                 return False
     # (6) a point change that shows only once conditional calls are lifted (the edit sits in one branch of a conditional argument)
     for c in cands:
@@ -805,7 +805,7 @@ def check_skeleton(ctx: Ctx, rule: str, fi: FuncInfo, specs: Sequence[str], what
         for sp in spec_terms:
             lsp = canon_lift(sp)
             if (lc != c or lsp != sp) and point_diffs(lc, lsp) == 1:
-                ctx.violation(rule, fi, fi.node, f"{what}: implementation computes  {show(lc)[:300]}  but the property requires  {show(lsp)[:300]}")
+                ctx.violation(rule, fi, fi.node, f"{what}: implementation computes  {show(lc)[:300]}  but the property requires  {show(lsp)[:300]}", robust=True)
                 return False
     raise AnalysisError(
         f"{fi.where}: skeleton {show(impl)[:200]} is neither the specification nor a point change of it: {show(spec_terms[0])[:200]}; cannot decide ({rule})"
